@@ -325,8 +325,14 @@ func gsub(t *rt.Thread, c *rt.GoCont) (rt.Cont, error) {
 	// copying the string until one substitution has actually taken place.  This
 	// is achieved by keeping the variable sj the same until bytes are written
 	// in the string builder.
+	// A pattern anchored with '^' can only match at the start of the subject,
+	// so at most once.
+	anchored := len(ptn) > 0 && ptn[0] == '^'
 	for ; matchCount != n; matchCount++ {
-		captures, usedCPU := pat.Match(string(s), si, t.UnusedCPU())
+		if anchored && matchCount > 0 {
+			break
+		}
+		captures, usedCPU := pat.MatchFromStart(string(s), si, t.UnusedCPU())
 		t.RequireCPU(usedCPU)
 		if len(captures) == 0 {
 			break
